@@ -548,3 +548,99 @@ func DenseDataSet(rng *rand.Rand, graphs, size int, numeric bool) bq.Data {
 	}
 	return d
 }
+
+// MatchingPattern builds 1-2 clauses by generalising stored triples, so the
+// pattern has at least one solution: each component of a picked triple is kept
+// as a constant or replaced by a binding; the second clause is joined with the
+// first through a shared node when the data allows.
+func MatchingPattern(rng *rand.Rand, d []*triple.Triple, clauses int) []bq.Clause {
+	if len(d) == 0 {
+		return []bq.Clause{{S: bq.B("?s1"), P: bq.B("?p1"), O: bq.B("?o1")}}
+	}
+	gen1 := func(t *triple.Triple, sfx string, sBind string) bq.Clause {
+		c := bq.Clause{}
+		if sBind != "" {
+			c.S = bq.B(sBind)
+		} else if rng.Intn(4) != 0 {
+			c.S = bq.B("?s" + sfx)
+		} else {
+			c.S = bq.N(t.Subject())
+		}
+		switch rng.Intn(5) {
+		case 0:
+			c.P = bq.P(t.Predicate())
+		case 1:
+			if _, err := t.Predicate().TimeAnchor(); err == nil {
+				c.P = bq.PB(string(t.Predicate().ID()), "?t"+sfx)
+			} else {
+				c.P = bq.B("?p" + sfx)
+			}
+		case 2:
+			if _, err := t.Predicate().TimeAnchor(); err == nil {
+				c.P = bq.PBd(string(t.Predicate().ID()), nil, nil)
+			} else {
+				c.P = bq.P(t.Predicate())
+			}
+		default:
+			c.P = bq.B("?p" + sfx)
+		}
+		if rng.Intn(5) == 0 {
+			o := t.Object()
+			if n, err := o.Node(); err == nil {
+				c.O = bq.N(n)
+			} else if p, err := o.Predicate(); err == nil {
+				c.O = bq.P(p)
+			} else {
+				l, _ := o.Literal()
+				c.O = bq.L(l)
+			}
+		} else {
+			c.O = bq.B("?o" + sfx)
+		}
+		// extractions that apply to this triple
+		if rng.Intn(4) == 0 {
+			c.SID = "?sid" + sfx
+		}
+		if rng.Intn(6) == 0 {
+			c.SType = "?sty" + sfx
+		}
+		if rng.Intn(5) == 0 {
+			c.PID = "?pid" + sfx
+		}
+		if _, err := t.Predicate().TimeAnchor(); err == nil && rng.Intn(4) == 0 && c.P.Kind != bq.KPBind {
+			c.PAt = "?pat" + sfx
+		}
+		if _, err := t.Object().Node(); err == nil && rng.Intn(5) == 0 {
+			c.OID = "?oid" + sfx
+		}
+		if rng.Intn(8) == 0 && c.O.Kind == bq.KBinding {
+			c.OAs = "?oa" + sfx
+		}
+		return c
+	}
+	t1 := d[rng.Intn(len(d))]
+	cs := []bq.Clause{gen1(t1, "1", "")}
+	if clauses > 1 {
+		// join through the object of the first triple when it is a node that is
+		// also a subject
+		var cands []*triple.Triple
+		if n, err := t1.Object().Node(); err == nil && cs[0].O.Kind == bq.KBinding {
+			for _, t := range d {
+				if t.Subject().String() == n.String() {
+					cands = append(cands, t)
+				}
+			}
+		}
+		if len(cands) > 0 {
+			cs = append(cs, gen1(cands[rng.Intn(len(cands))], "2", cs[0].O.Binding))
+		} else if cs[0].S.Kind == bq.KBinding {
+			for _, t := range d {
+				if t.Subject().String() == t1.Subject().String() {
+					cands = append(cands, t)
+				}
+			}
+			cs = append(cs, gen1(cands[rng.Intn(len(cands))], "2", cs[0].S.Binding))
+		}
+	}
+	return cs
+}
